@@ -116,10 +116,12 @@ def _dataclass_parameters(class_: Class) -> list[Parameter]:
             if field_args.get("init") == "False":
                 continue
 
-            # Determine parameter kind.
+            # Determine parameter kind: an explicit `kw_only` argument of `field()`
+            # takes precedence over the `KW_ONLY` marker and the decorator argument.
+            field_kw_only = field_args.get("kw_only")
             kind = (
                 ParameterKind.keyword_only
-                if kw_only or field_args.get("kw_only") == "True"
+                if (kw_only if field_kw_only is None else field_kw_only == "True")
                 else ParameterKind.positional_or_keyword
             )
 
